@@ -39,3 +39,7 @@ package offered
 //@   assert [C08:no-apply-while-deleting] !meta.WasDeleted(d)
 //@   assert [C02:crd-apply-controllable] $o == $crd && contains($opts, resource.MustBeControllableBy(d.GetUID()))
 //@   assert [C11,C02:the-crd-is-applied-whenever-it-is-controllable-so-it-ends-up-controlled-by-the-xrd] len($opts) == 2
+// C06: the server-side syncer, too, generates XR names with the availability-checking generator
+//@ let $ng = result names.NewNameGenerator
+//@ optional site claim.NewServerSideCompositeSyncer($cl, $g) as ssa-syncer
+//@   assert [C06:ssa-syncer-uses-the-availability-checking-name-generator] $g == $ng
